@@ -100,12 +100,28 @@ def gen_cases(rng, tier):
             while len(case) < 11:
                 case.append("-")
             case.append(str(rng.randrange(1, 4)))
+        if rng.random() < 0.2:
+            # a Call-ID is word ["@" word] (RFC 3261 25.1): characters a token may not contain are legal in it and are mirrored as they came
+            while len(case) < 12:
+                case.append("-")
+            case.append(rng.choice(CALL_IDS).encode().hex())
         cases.append(case)
     return cases
 
 
+CALL_IDS = ["a84b/4c76+e667:10@[2001:db8::10]", "{f81d4fae-7dec-11d0-a765-00a0c91e6bf6}@pc33.example.com", "x(1)<y>?\"z\"\\w@host", "a:b", "[x]", "f81d4fae%7dec@h_1.~*'!", "()<>:\\\"/[]?{}"]
+
+
+def _call_id(case):
+    return bytes.fromhex(case[12]).decode() if len(case) > 12 and case[12] not in ("", "-") else "c09-call@host"
+
+
 def normalize_impl(case, s):
-    return s.split("|R:")[0]
+    s = s.split("|R:")[0]
+    cid = _call_id(case)
+    if cid != "c09-call@host":
+        s = s.replace("|Call-ID: %s|" % cid, "|Call-ID: c09-call@host|")      # the model run uses the usual Call-ID; the oracle looks at this one
+    return s
 
 
 REASONS = None
@@ -168,7 +184,7 @@ def oracle(case, impl):
     want_top = "SIP/2.0/%s %s%s%s" % (top[0], top[3], "" if top[4] == "-" else ":" + top[4], "".join(";" + p for p in exp))
     if sorted(got_vias[0].split(";")[1:]) != sorted(want_top.split(";")[1:]) or got_vias[0].split(";")[0] != want_top.split(";")[0]:
         return ["top Via %r, expected %r" % (got_vias[0], want_top)]
-    for name, want in (("From", "<sip:a@example.org>;tag=ft;x=1"), ("To", "<sip:b@example.org>"), ("Call-ID", "c09-call@host"), ("CSeq", "4242 OPTIONS")):
+    for name, want in (("From", "<sip:a@example.org>;tag=ft;x=1"), ("To", "<sip:b@example.org>"), ("Call-ID", _call_id(case)), ("CSeq", "4242 OPTIONS")):
         vals = [v for (n, v) in hdrs if n == name]
         if vals != [want]:
             return ["%s values %r, request had %r" % (name, vals, want)]
